@@ -62,7 +62,7 @@ Ltac wf_tac :=
                          TransactionOutputMap TransactionOutput TransactionOutputs AddressS RewardAddressS TransactionBody
                          TransactionWitnessSet Transaction Block BlockPraos MetadataList MetadataMap PlutusMap ConstrPlutusData Redeemer
                          TransactionBodies TransactionWitnessSets TransactionUnspentOutput
-                         ScriptAll ScriptAny ScriptNOfK VersionedBlock not_major7 first_major may_start7 has_disc];
+                         ScriptAll ScriptAny ScriptNOfK VersionedBlock FixedTransaction not_major7 first_major may_start7 has_disc];
                     rewrite ?wf_NativeScript, ?wf_Metadatum, ?wf_PlutusData,
                             ?fm_NativeScript, ?fm_Metadatum, ?fm_PlutusData,
                             ?ms7_NativeScript, ?ms7_Metadatum, ?ms7_PlutusData));
